@@ -1,50 +1,68 @@
 """C07: bulkhead never loses capacity and rejects only by timeout."""
 from bulkhead_common import *
 PROP = "C07"
-RULE = "as C01; after every script all callers are dropped and cap+1 fresh callers are polled: exactly cap must start; non-trivial = some caller queued, timed out or panicked"
+RULE = "as C01; after every script all callers are dropped and cap+1 fresh callers are polled: the first cap must start; non-trivial = some caller queued, timed out or panicked"
 
 
 def monitor(s, t):
+    """C07 over the implementation's trace alone. 'Arrived' is read either way the text allows (call() or first poll):
+    a rejection is early only if it precedes call() + max_wait, late only if the caller is still pending when polled at
+    or after first poll + max_wait. Which of permit and timer wins an exact tie, the order in which waiters are served
+    and spurious wake-ups are left open."""
     d = decode(s, t)
     if d is None:
         return "malformed or panicking run: %s" % t[:10]
     cap, mw, n, evt = d
     now = 0
+    called = {}         # caller -> instant its call future was created (call())
     first = {}          # caller -> first poll instant
-    state = {}          # caller -> 'wait' | 'run' | 'end'
+    state = {}          # caller -> 'wait' | 'run' | 'end' (absent: never polled)
+    reached = set()     # requests the inner service's call() has seen (the inner service's own record)
+    barred = {}         # requests that must never reach the inner service -> why
     probe = evt[-(cap + 1):]
     for k, (e, o) in enumerate(evt):
         op, a, b = e
-        r, started, seen, mask, infl = o
+        r, started, seen, mask, infl, ids = o
+        for j in started_ids(ids):
+            if j in barred:
+                return "request %d reached the wrapped service although it was %s" % (j, barred[j])
+            reached.add(j)
+        if op in (1, 2, 5) and a not in called:
+            called[a] = now
         if op == 3:
             old = now
             now += max(0, a)
             if mw >= 0:
                 for i, st in state.items():
-                    if st == 'wait' and old < first[i] + mw <= now and not (mask >> i) & 1:
+                    if st == 'wait' and i < MASKW and old < first[i] + mw <= now and not (mask >> i) & 1:
                         return "caller %d still waiting at its deadline %d was not woken" % (i, first[i] + mw)
         elif op == 2:
+            if state.get(a) in (None, 'wait'):
+                if a in reached:
+                    return "request %d was cancelled while waiting but had reached the wrapped service" % a
+                barred[a] = "cancelled while waiting"
             state[a] = 'end'
-        elif op == 1:
+        elif op == 1 and state.get(a) != 'end':
             i = a
-            if state.get(i) == 'end':
-                continue
             fresh = i not in first
+            waiting = [j for j, st in state.items() if st == 'wait' and j != i]
+            running = [j for j, st in state.items() if st == 'run']
             if fresh:
                 first[i] = now
-                waiting = [j for j, st in state.items() if st == 'wait']
-                running = [j for j, st in state.items() if st == 'run']
                 if len(running) < cap and not waiting and not started:
                     return "caller %d arrived with %d in flight (cap %d) and nobody queued but was not admitted at once" % (i, len(running), cap)
+            elif state.get(i) == 'wait' and len(running) < cap and not waiting and r == 0 and not started:
+                return "caller %d is the only one waiting, %d in flight (cap %d), and its poll neither admitted nor rejected it: capacity lost" % (i, len(running), cap)
             if r == 4:
                 return "BulkheadFull returned (semaphore is never closed)"
             if r == 3:
                 if mw < 0:
                     return "timeout rejection without max_wait_duration"
-                if now < first[i] + mw:
-                    return "caller %d rejected at %d, before arrival %d + max_wait %d" % (i, now, first[i], mw)
-                if started or state.get(i) == 'run':
+                if now < called[i] + mw:
+                    return "caller %d rejected at %d, before arrival %d + max_wait %d" % (i, now, called[i], mw)
+                if started or state.get(i) == 'run' or i in reached:
                     return "rejected caller %d reached the inner service" % i
+                barred[i] = "rejected"
             if r == 0 and not started and state.get(i, 'wait') == 'wait' and mw >= 0 and now >= first[i] + mw:
                 return "caller %d polled at/after its deadline is still pending" % i
             if started:
@@ -53,8 +71,13 @@ def monitor(s, t):
                 state[i] = 'wait'
             if r not in (0,):
                 state[i] = 'end'
-    # capacity probe
-    ok = sum(1 for (_, o) in probe if o[1] == 1)
-    if ok != cap or probe[-1][1][1] != 0:
-        return "after the history, with nothing in flight, %d of %d probe callers were admitted (cap %d)" % (ok, cap + 1, cap)
+        # capacity is not parked on a sleeping caller: whenever a slot is free and callers wait, one of them has been woken
+        waiting = [j for j, st in state.items() if st == 'wait']
+        nrun = sum(1 for st in state.values() if st == 'run')
+        if waiting and nrun < cap and max(waiting) < MASKW and not any((mask >> j) & 1 for j in waiting):
+            return "after event %d %s: %d in flight (cap %d), callers %s wait and none of them has been woken: capacity lost" % (k, e, nrun, cap, waiting)
+    # capacity probe: nothing is in flight or waiting any more; cap fresh callers arrive one after the other
+    ok = sum(1 for (_, o) in probe[:cap] if o[1] >= 1)
+    if ok != cap:
+        return "after the history, with nothing in flight, only %d of the first %d probe callers were admitted (cap %d)" % (ok, cap, cap)
     return None
